@@ -134,6 +134,12 @@ func (Engine) Run(c *simkit.Choices, x *simkit.Ctx) *simkit.Violation {
 	mutated := c.N(4) == 0
 	if mutated {
 		data, faults = common.Corrupt(c, doc, 1+c.N(3), st)
+		if f == model.UBJSON && common.HasPayloadlessTyped(data) {
+			// a corrupted count on a payload-less typed container is a time
+			// bomb (known finding of C03), not a chunking question
+			st.Probe("steered-around-ubjson-payloadless-typed")
+			data, faults, mutated = doc.Bytes, nil, false
+		}
 	}
 	r := &runner{cd: cd, doc: data, noRef: c.N(6) == 0, x: x}
 	sc := func(entry string, cuts, reads []int, ewd bool) *Scenario {
